@@ -226,7 +226,8 @@ func c01(c *Ctx) {
 	n := fixedHeaderRules(c)
 	n += elementHeaderRules(c)
 	n += sizeSibling(c)
-	r.Floor("C01 layout/sibling rows", n, 30)
+	n += profileDispatch(c)
+	r.Floor("C01 layout/sibling rows", n, 34)
 	hu := p.Func("rtp.(*Header).Unmarshal")
 	pu := p.Func("rtp.(*Packet).Unmarshal")
 	boundsRun(c, []*ssa.Function{hu, pu}, headerContracts(c, false))
@@ -271,6 +272,7 @@ func c03(c *Ctx) {
 		r.Add("SIBLING.walk", core.FuncName(fn), "two-byte walk skips zero padding bytes", p.Position(fn.Pos()), f.paddingSkip, f.String())
 	}
 	n += viewIdentity(c)
+	n += profileDispatch(c)
 	r.Floor("C03 rows", n, 45)
 	pu := p.Func("rtp.(*Packet).Unmarshal")
 	boundsRun(c, []*ssa.Function{hu, pu}, headerContracts(c, true))
@@ -526,4 +528,43 @@ func addShape(v *ssa.BinOp) string {
 		return "v"
 	}
 	return term(v)
+}
+
+// profileDispatch: every function that branches on the extension profile compares the whole
+// 16-bit value with exactly {0xBEDE, 0x1000} (writer, size function, reader and SetExtension
+// must classify a header identically).
+func profileDispatch(c *Ctx) int {
+	p, r := c.Prog, c.R
+	n := 0
+	for _, it := range []struct{ fn, pattern string }{
+		{"rtp.(Header).MarshalTo", "recv.ExtensionProfile.15-0"},
+		{"rtp.(Header).MarshalSize", "recv.ExtensionProfile.15-0"},
+		{"rtp.(*Header).SetExtension", "recv.ExtensionProfile.15-0"},
+		{"rtp.(*Header).Unmarshal", "$b[@c].7-0 $b[@c+1].7-0"},
+	} {
+		fn := p.Func(it.fn)
+		if fn == nil {
+			r.Fatalf("anchor %s missing", it.fn)
+			continue
+		}
+		m := bits.Run(p, fn)
+		got := cmpConsts(m, it.pattern)
+		// any other comparison involving profile bits (masked forms) is a divergence
+		masked := 0
+		for _, ci := range m.Cmps {
+			if vecMatches(ci.Vec, it.pattern) {
+				continue
+			}
+			for _, b := range ci.Vec {
+				if (b.K == bits.In || b.K == bits.Not) && strings.Contains(b.Src, "ExtensionProfile") {
+					masked++
+					break
+				}
+			}
+		}
+		n++
+		r.Add("SIBLING.profile", it.fn, "profile dispatch compares the full 16-bit profile with {0x1000, 0xBEDE}", p.Position(fn.Pos()),
+			len(got) == 2 && got[0] == 0x1000 && got[1] == 0xBEDE && masked == 0, fmt.Sprintf("constants %s, %d comparisons on a masked profile", u64s(got), masked))
+	}
+	return n
 }
